@@ -109,35 +109,85 @@ Fixpoint nullable (r : re) : bool :=
   | Rep r0 lo hi => leb_opt lo hi && (Nat.eqb lo 0 || nullable r0)
   end.
 
-Definition cname_eq_dec (a b : cname) : {a = b} + {a <> b}.
-Proof. decide equality. Defined.
+(* syntactic equality of expressions *)
+Definition cname_eqb (a b : cname) : bool :=
+  match a, b with
+  | Alnum, Alnum | Alpha, Alpha | Digit, Digit | Lower, Lower | Upper, Upper | Xdigit, Xdigit | Word, Word => true
+  | _, _ => false
+  end.
 
-Definition citem_eq_dec (a b : citem) : {a = b} + {a <> b}.
-Proof. decide equality; try apply N.eq_dec; apply cname_eq_dec. Defined.
+Definition citem_eqb (a b : citem) : bool :=
+  match a, b with
+  | CR l1 h1, CR l2 h2 => (l1 =? l2) && (h1 =? h2)
+  | CNamed n1, CNamed n2 => cname_eqb n1 n2
+  | _, _ => false
+  end.
 
-Definition re_eq_dec (a b : re) : {a = b} + {a <> b}.
-Proof.
-  decide equality; try apply N.eq_dec; try apply bool_dec; try apply Nat.eq_dec;
-    try (apply list_eq_dec; apply citem_eq_dec).
-  decide equality; apply Nat.eq_dec.
-Defined.
+Fixpoint list_eqb {A} (f : A -> A -> bool) (l1 l2 : list A) : bool :=
+  match l1, l2 with
+  | [], [] => true
+  | x :: r1, y :: r2 => f x y && list_eqb f r1 r2
+  | _, _ => false
+  end.
+
+Definition opt_nat_eqb (a b : option nat) : bool :=
+  match a, b with
+  | None, None => true
+  | Some x, Some y => Nat.eqb x y
+  | _, _ => false
+  end.
+
+Fixpoint re_eqb (a b : re) : bool :=
+  match a, b with
+  | Empty, Empty => true
+  | Eps, Eps => true
+  | Byte x, Byte y => x =? y
+  | Class n1 i1, Class n2 i2 => Bool.eqb n1 n2 && list_eqb citem_eqb i1 i2
+  | Cat a1 a2, Cat b1 b2 => re_eqb a1 b1 && re_eqb a2 b2
+  | Alt a1 a2, Alt b1 b2 => re_eqb a1 b1 && re_eqb a2 b2
+  | Star x, Star y => re_eqb x y
+  | Plus x, Plus y => re_eqb x y
+  | Opt x, Opt y => re_eqb x y
+  | Rep x l1 h1, Rep y l2 h2 => Nat.eqb l1 l2 && opt_nat_eqb h1 h2 && re_eqb x y
+  | _, _ => false
+  end.
 
 (* simplifying constructors keep derivatives small *)
-Definition cat' (a b : re) : re :=
+(* alternatives are kept as a flat, duplicate-free, right-nested list (associativity
+   and idempotence of |), which keeps the set of derivatives small *)
+Fixpoint alts (r : re) : list re :=
+  match r with
+  | Alt a b => alts a ++ alts b
+  | Empty => []
+  | _ => [r]
+  end.
+
+Fixpoint build_alt (l : list re) : re :=
+  match l with
+  | [] => Empty
+  | [x] => x
+  | x :: rest => Alt x (build_alt rest)
+  end.
+
+(* keep the first occurrence of every alternative *)
+Fixpoint dedup (seen : list re) (l : list re) : list re :=
+  match l with
+  | [] => []
+  | x :: r => if existsb (re_eqb x) seen then dedup seen r else x :: dedup (x :: seen) r
+  end.
+
+Definition alt' (a b : re) : re := build_alt (dedup [] (alts a ++ alts b)).
+
+Definition cat1 (a b : re) : re :=
   match a with
   | Empty => Empty
   | Eps => b
   | _ => match b with Empty => Empty | Eps => a | _ => Cat a b end
   end.
 
-Definition alt' (a b : re) : re :=
-  match a with
-  | Empty => b
-  | _ => match b with
-         | Empty => a
-         | _ => if re_eq_dec a b then a else Alt a b
-         end
-  end.
+(* concatenation distributes over the alternatives of its left operand, so that a
+   derivative is always a flat list of products *)
+Definition cat' (a b : re) : re := build_alt (dedup [] (map (fun x => cat1 x b) (alts a))).
 
 Definition pred_opt (hi : option nat) : option nat :=
   match hi with None => None | Some h => Some (pred h) end.
